@@ -44,6 +44,9 @@ def drive_hist(res, binary, seed, n, types=None, shards=None, label="hist", tags
     """Seeded random histories on the real code (all corpus types and flavours), validated by Trace_PbObject."""
     schema = export_schema(binary, tuple(types or ()))
     env = {"VERIF_TYPES": ",".join(types)} if types else None
+    for k in ("VERIF_HIST_SWEEP", "VERIF_SWEEP_LARGE", "VERIF_MIX"):
+        if os.environ.get(k):
+            env = dict(env or {}, **{k: os.environ[k]})
     gen = os.path.join(scratch(), "%s-gen-%d.ndjson" % (label, seed))
     tr = os.path.join(scratch(), "%s-trace-%d.ndjson" % (label, seed))
     harness(binary, ["gen", "hist", seed, n, gen], env=env)
@@ -124,13 +127,25 @@ RULE = ("tour: TLC enumerates every history up to the depth bound over a sub-vie
         "distinct += (type, flavour, operation)")
 
 
-def finish(res, binary, seed, tier, mix, nq=300, nt=12000, types=None):
+SWEEP_TYPES = ["goproto.proto.testeditions.TestAllTypes:dyn", "opaque.goproto.proto.testeditions.TestAllTypes",
+               "goproto.proto.test.TestAllTypes", "goproto.proto.test3.TestAllTypes:dyn"]
+
+
+def finish(res, binary, seed, tier, mix, nq=300, nt=12000, types=None, sweep=False):
     n = nq if tier == "quick" else nt
     os.environ["VERIF_MIX"] = mix
     try:
         drive_hist(res, binary, seed, n, types=types, shards=3 if tier == 'quick' else 4)
+        if sweep:
+            # systematic: every length-delimited body length around 127/128 and 16383/16384, three routes, fast and reflection path
+            os.environ["VERIF_HIST_SWEEP"] = "boundary"
+            if tier != "quick":
+                os.environ["VERIF_SWEEP_LARGE"] = "1"
+            drive_hist(res, binary, seed, 1, types=SWEEP_TYPES[:2] if tier == "quick" else SWEEP_TYPES, shards=3, label="hist-boundary")
     finally:
         os.environ.pop("VERIF_MIX", None)
+        os.environ.pop("VERIF_HIST_SWEEP", None)
+        os.environ.pop("VERIF_SWEEP_LARGE", None)
     res.rule = RULE % (len(types) if types else 24)
     res.assumptions += ["schema constant exported from the real descriptors through protoreflect accessors (their correctness is C34-C38)",
                         "projection through protoreflect Range/Get/GetUnknown (cross-checked against Has/WhichOneof/defaults by the harness's contract self-check)"]
@@ -155,7 +170,7 @@ def c03(res, tier, seed):
     mc(res, b, "rt-te", BASE_TE, [1, 5, 12, 14, 16, 31, 44, 56, 112], ["rt", "setu"], D(tier, 2, 3), nest_at=18, nest_fields=[1])
     mc2(tier, res, b, "rt-t3", BASE_T3, [1, 81, 92, 94, 31, 56, 112], ["rt"], D(tier, 2, 3))
     mc2(tier, res, b, "rt-t2", BASE_T2, [1, 12, 16, 31, 56, 112], ["rt", "setu"], 2)
-    finish(res, b, seed, tier, "mut=10,marshal=3,unmarshal=2,rt=4,reset=1,clone=1")
+    finish(res, b, seed, tier, "mut=10,marshal=3,unmarshal=3,rt=5,reset=1,clone=1,boundary=3", sweep=True)
 
 
 @check("C04")
@@ -163,7 +178,7 @@ def c04(res, tier, seed):
     b = build_harness(PKG)
     mc(res, b, "size-te", BASE_TE, [1, 6, 12, 134, 135, 14, 31, 48, 69, 112], ["size", "setu"], D(tier, 2, 3), nest_at=18, nest_fields=[1, 2])
     mc2(tier, res, b, "size-t3", BASE_T3, [81, 92, 94, 31, 69], ["size"], D(tier, 2, 3))
-    finish(res, b, seed, tier, "mut=10,size=6,marshal=3,unmarshal=1,rt=1")
+    finish(res, b, seed, tier, "mut=10,size=6,marshal=3,unmarshal=1,rt=2,boundary=3", sweep=True)
 
 
 @check("C07")
@@ -184,6 +199,9 @@ def c09(res, tier, seed):
     mc(res, b, "evo-te", BASE_TE, [5, 16, 31, 44, 48, 56, 112, 113], ["evo", "setu"], 2, nest_at=0, laws=["AllWellFormed", "RoundTripLaw", "EvolutionLaw"],
        flavs=[(BASE_TE, False), (BASE_TE, True), ("opaque." + BASE_TE, False)] if tier == "quick" else None)
     mc2(tier, res, b, "unk-t2", BASE_T2, [1, 16, 18], ["setu", "rt", "udisc"], 2, nest_at=18, nest_fields=[1])
+    # DiscardUnknown on a lazily decoded message: unknown fields inside a still-deferred submessage must not come back on Marshal
+    mc(res, b, "unk-lazy", LAZY_BASE, [99], ["uwire", "uwdisc", "rt"], 2, wire_recs=[[154, 6, 3, 160, 31, 7], [154, 6, 2, 8, 1], [160, 31, 1]],
+       max_recs=2, flavs=LAZY_FLAVS[:2] if tier == "quick" else LAZY_FLAVS, laws=["AllWellFormed"])
     finish(res, b, seed, tier, "mut=8,unmarshal=5,rt=3,marshal=2,merge=1,evo=4")
 
 
@@ -272,12 +290,24 @@ LAZY_FLAVS = [(LAZY_BASE, False), (LAZY_BASE, True), ("hybrid.lazy_tree.Node", F
 # non-minimal length / ill-formed inside; field 1 (eager int32); an unknown field
 LAZY_RECS = [[154, 6, 0], [154, 6, 2, 8, 1], [152, 6, 5], [154, 6, 130, 0, 8, 1], [154, 6, 1, 255], [8, 1], [160, 31, 1],
              [154, 6, 3, 160, 31, 7]]      # the last one: an unknown field INSIDE the lazy submessage
-LAZY_TYPES = ["opaque.lazy_tree.Node", "hybrid.lazy_tree.Node", "lazy_tree.Node", "opaque.lazy_tree.Node:dyn",
+LAZY_TYPES = ["goproto.proto.test.OpaqueLazy", "goproto.proto.test.HybridLazy", "goproto.proto.test.OpaqueLazy:dyn", "opaque.lazy_tree.Node", "hybrid.lazy_tree.Node", "lazy_tree.Node", "opaque.lazy_tree.Node:dyn",
               "opaque.goproto.proto.testeditions.TestRequiredLazy", "goproto.proto.testeditions.TestRequiredLazy",
               "opaque.goproto.proto.testeditions.TestAllTypes", "hybrid.goproto.proto.testeditions.TestAllTypes",
               "opaque.goproto.proto.test3.TestAllTypes"]
 MODULE_OF["C17"] = "hist"
 HARNESS_PKGS["C17"] = PKG
+
+
+def lazy_groups_config(res, b):
+    """sibling groups inside a lazily decoded submessage, at and around the recursion limit: the validator used for deferring must
+    count nesting exactly like the decoder (top 1 > lazy message 2 > corecursive 3 > group 4), on every flavour"""
+    g = [131, 1, 132, 1]
+    def lazy_groups(k):
+        body = g * k
+        return [194, 1, len(body) + 2, 18, len(body)] + body
+    OPQ = "opaque." + BASE_TE
+    mc(res, b, "lazy-groups", OPQ, [24], ["uwire", "rt"], 2, wire_recs=[lazy_groups(k) for k in (1, 2, 3, 5)], max_recs=1, wire_limits=(3, 4, 5),
+       flavs=[(OPQ, False), ("hybrid." + BASE_TE, False), (BASE_TE, False), (BASE_TE, True)], laws=["AllWellFormed"])
 
 
 @check("C17")
@@ -288,10 +318,11 @@ def c17(res, tier, seed):
     mc(res, b, "lazy-node", LAZY_BASE, [1, 99], ["uwire", "uwdisc", "rt", "size", "clone", "equal", "checkinit"] + ([] if tier == "quick" else ["uwmerge"]),
        2, nest_at=99, nest_fields=[1], wire_recs=[LAZY_RECS[i] for i in (0, 1, 2, 7, 5)] if tier == "quick" else LAZY_RECS,
        max_recs=2, flavs=LAZY_FLAVS, laws=["AllWellFormed", "RoundTripLaw"])
+    lazy_groups_config(res, b)
     # merging decodes (lazy then eager, eager then lazy) into one object: found F22
     mc(res, b, "lazy-merge", LAZY_BASE, [99], ["uwire", "uwmerge", "rt"], 3, nobj=2, wire_recs=[LAZY_RECS[1], LAZY_RECS[0], [154, 6, 2, 16, 5]],
        max_recs=1, flavs=LAZY_FLAVS[:2] if tier == "quick" else LAZY_FLAVS, laws=["AllWellFormed"])
-    finish(res, b, seed, tier, "mut=6,unmarshal=8,rt=4,marshal=3,size=2,equal=2,clone=2,checkinit=2,merge=2,umerge=1", types=LAZY_TYPES)
+    finish(res, b, seed, tier, "mut=5,unmarshal=10,rt=4,marshal=3,size=2,equal=2,clone=2,checkinit=2,merge=2,umerge=1", types=LAZY_TYPES)
     res.notes.append("lazy and eager decoding are bound to the SAME specification (nolazy is not a parameter of PbObject), so agreement of both with it is their observational equivalence")
 
 
@@ -389,7 +420,8 @@ def c06(res, tier, seed):
 for _p in ("C05", "C29", "C08"):
     MODULE_OF[_p] = "det"
     HARNESS_PKGS[_p] = PKG
-DET_EXTRA = ("goproto.proto.testeditions.TestRequiredForeign", "goproto.proto.testeditions.TestAllExtensions")
+DET_EXTRA = ("goproto.proto.testeditions.TestRequiredForeign", "goproto.proto.testeditions.TestAllExtensions",
+             "google.protobuf.Value", "google.protobuf.Struct", "google.protobuf.ListValue")
 
 
 def det_schema(binary):
@@ -462,6 +494,7 @@ def c29(res, tier, seed):
     b = build_harness(PKG)
     mc(res, b, "flav-te", BASE_TE, [1, 124, 14, 18, 31, 69, 112, 121], ["rt", "clone"], D(tier, 2, 3))
     mc2(tier, res, b, "flav-t3", BASE_T3, [1, 81, 18, 98, 31, 71, 112], ["rt", "clone"], 2)
+    lazy_groups_config(res, b)      # a lazy-capable flavour must accept exactly what the others accept
     det_run(res, [("p1", b)], seed, 400 if tier == "quick" else 12000, mix_ops=("flav",), label="flav")
     res.rule = ("tour: every bounded history replayed on the open, hybrid, opaque and dynamicpb flavour with the same expected projection; "
                 "driver: one seeded content per case built in every flavour: identical deterministic bytes, and every flavour decodes every "
